@@ -222,7 +222,10 @@ impl ReferenceProcessor<u32, (u32, usize), (u32, usize)> for NextReferenceIdProc
             return Some((START_REFERENCE_ID, missing_refs_result));
         }
 
-        Some((ref_id_result + 1, missing_refs_result))
+        /* u32::MAX as the next reference ID means the range is exhausted: it is never handed out
+         * (see InsertReferencesProcessor::map).
+         */
+        Some((ref_id_result.saturating_add(1), missing_refs_result))
     }
 }
 
@@ -454,7 +457,26 @@ impl ReferenceProcessor<Arc<AtomicU32>, InsertReferencesResult, InsertReferences
 
             unwritten_content_start_pos += insert_pos - unwritten_content_start_pos;
 
-            let reference_id = next_reference_id.fetch_add(1, std::sync::atomic::Ordering::Relaxed);
+            let reference_id = match next_reference_id.fetch_update(
+                std::sync::atomic::Ordering::Relaxed,
+                std::sync::atomic::Ordering::Relaxed,
+                |id| id.checked_add(1),
+            )
+            {
+                Ok(id) => id,
+                Err(_) =>
+                {
+                    task::spawn(async {
+                        error!("[ref: 37] No reference IDs left: the range 1 to 4294967295 is exhausted");
+                    })
+                    .await;
+
+                    return Some(InsertReferencesResult {
+                        failure: true,
+                        num_inserted_references: 0,
+                    });
+                },
+            };
             let insertable_ref_id_string = entry.insertable_reference_string(reference_id);
 
             match scratch_file
@@ -744,8 +766,8 @@ pub fn generate_code(context: &Context) -> Result<u32, &'static str>
             None => return Err("Failed to insert references"),
         };
 
-        let cachable_reference_id =
-            calculated_next_reference_id + (reference_updates.num_inserted_references as u32);
+        let cachable_reference_id = calculated_next_reference_id
+            .saturating_add(reference_updates.num_inserted_references as u32);
         context.cache_next_reference_id(cachable_reference_id, context.config.config_dir.as_str());
 
         info!(
